@@ -178,7 +178,7 @@ func VerifC14_PubSub() {
 	ref := [2]vpSubs{{exact: map[string]bool{}, pat: map[string]bool{}}, {exact: map[string]bool{}, pat: map[string]bool{}}}
 	gone := [2]bool{}
 	for i := 0; i < steps; i++ {
-		op := vpChoose("op", 8)
+		op := vpChoose("op", 7+vpBound("multi"))
 		switch op {
 		case 0, 1: // subscribe / psubscribe
 			c := vpChoose("conn", 2)
